@@ -1270,7 +1270,8 @@ def translate(repo):
         raise TranslateError('more than one owner hook on self.elements')
     cmeths = class_methods(cl['FEMElementalAttribute'][0])
 
-    def notifies(fn, H, depth=0):
+    def notifies(fn, H, depth=0, cm=None):
+        cm = cmeths if cm is None else cm
         """the notification is a top-level statement of fn and no statement before it can leave
         fn normally without reaching it (a `return` on some path: raising is fine)"""
         bound = set()
@@ -1307,7 +1308,7 @@ def translate(repo):
                         c.func.value.id == 'self':
                     if c.func.attr == H and not c.args:
                         return True
-                    if c.func.attr in cmeths and depth < 2 and notifies(cmeths[c.func.attr], H, depth + 1):
+                    if c.func.attr in cm and depth < 2 and notifies(cm[c.func.attr], H, depth + 1, cm):
                         return True
         return False
     if hooks and notifies(setter, hooks[0][0]):
@@ -1324,6 +1325,89 @@ def translate(repo):
                                 isinstance(t.value, ast.Attribute) and t.value.attr == 'elements' and \
                                 isinstance(t.value.value, ast.Name) and t.value.value.id == 'self':
                             facts[nm].calls.append((hook_method, False, None))
+
+    # ---- re-indexing of the node table: FEMData.__init__ does `self.nodes.<H> = self.<M>`; the
+    #      `ids` setter and the `data_frame` setter of FEMAttribute (the latter is what
+    #      FEMAttribute.update assigns through) run the hook on every path
+    rel_n = 'femio/fem_attribute.py'
+    cln, s4 = load_classes(repo, [rel_n])
+    consumed[rel_n] = sha(s4[rel_n])
+    if 'FEMAttribute' not in cln:
+        raise TranslateError('FEMAttribute not found')
+    nmeths = {}
+    nsetters = {}
+    for n in cln['FEMAttribute'][0].body:
+        if isinstance(n, ast.FunctionDef):
+            if any(isinstance(d, ast.Attribute) and d.attr == 'setter' for d in n.decorator_list):
+                nsetters[n.name] = n
+            elif not n.decorator_list:
+                nmeths[n.name] = n
+    nhooks = set()
+    if init is not None:
+        for n in ast.walk(init):
+            if isinstance(n, ast.Assign) and len(n.targets) == 1:
+                t, v = n.targets[0], n.value
+                if isinstance(t, ast.Attribute) and isinstance(t.value, ast.Attribute) and \
+                        t.value.attr == 'nodes' and isinstance(t.value.value, ast.Name) and \
+                        t.value.value.id == 'self' and isinstance(v, ast.Attribute) and \
+                        isinstance(v.value, ast.Name) and v.value.id == 'self' and v.attr in universe:
+                    nhooks.add((t.attr, v.attr))
+    if len(nhooks) > 1:
+        raise TranslateError('more than one owner hook on self.nodes')
+    node_hook_method = None
+    node_where = f'{rel_n} (ids / data_frame setters, update)'
+    if 'ids' not in nsetters or 'update' not in nmeths:
+        raise TranslateError('FEMAttribute.ids setter / update not found')
+
+    def assigns_through(fn, prop):
+        """`self.<prop> = ...` is a top-level statement of fn and nothing before it returns"""
+        for st in fn.body:
+            if any(isinstance(x, ast.Return) for x in ast.walk(st)) and st is not fn.body[-1]:
+                return False
+            if isinstance(st, ast.Assign) and any(
+                    isinstance(t, ast.Attribute) and t.attr == prop and isinstance(t.value, ast.Name)
+                    and t.value.id == 'self' for t in st.targets):
+                return True
+        return False
+    if nhooks:
+        H, M = next(iter(nhooks))
+        ok_ids = notifies(nsetters['ids'], H, 0, nmeths)
+        ok_upd = notifies(nmeths['update'], H, 0, nmeths) or (
+            'data_frame' in nsetters and notifies(nsetters['data_frame'], H, 0, nmeths)
+            and assigns_through(nmeths['update'], 'data_frame'))
+        # every FEMData method that replaces self.nodes must install the hook on the new table
+        reinstalled = True
+        for nm, fn in universe.items():
+            if nm == '__init__' or nm not in facts:
+                continue
+            repl = [n for n in ast.walk(fn) if isinstance(n, ast.Assign) and any(
+                isinstance(t, ast.Attribute) and t.attr == 'nodes' and isinstance(t.value, ast.Name)
+                and t.value.id == 'self' for t in n.targets)]
+            inst = [n for n in ast.walk(fn) if isinstance(n, ast.Assign) and any(
+                isinstance(t, ast.Attribute) and t.attr == H and isinstance(t.value, ast.Attribute)
+                and t.value.attr == 'nodes' for t in n.targets)]
+            if repl and not inst:
+                reinstalled = False
+        if ok_ids and ok_upd and reinstalled:
+            node_hook_method = M
+    if node_hook_method is not None:
+        for nm, fn in universe.items():
+            if nm not in facts or nm == node_hook_method:
+                continue
+            for n in ast.walk(fn):
+                hit = False
+                if isinstance(n, ast.Assign):
+                    for t in n.targets:
+                        if isinstance(t, ast.Attribute) and t.attr == 'ids' and \
+                                isinstance(t.value, ast.Attribute) and t.value.attr == 'nodes' and \
+                                isinstance(t.value.value, ast.Name) and t.value.value.id == 'self':
+                            hit = True
+                if isinstance(n, ast.Call) and isinstance(n.func, ast.Attribute) and n.func.attr == 'update' and \
+                        isinstance(n.func.value, ast.Attribute) and n.func.value.attr == 'nodes' and \
+                        isinstance(n.func.value.value, ast.Name) and n.func.value.value.id == 'self':
+                    hit = True
+                if hit:
+                    facts[nm].calls.append((node_hook_method, False, None))
 
     # ---- assemble
     for nm, f in facts.items():
@@ -1533,6 +1617,18 @@ def translate(repo):
         effects.append({'name': 'assign_connectivity', 'writer': False, 'pre': [],
                         'writes': [('elements', None)], 'clears': [], 'clears_slots': [],
                         'where': f'{rel}:{setter.lineno}'})
+    # fd.nodes.ids = ... / fd.nodes.update(...): the node table is re-indexed (ids re-labelled,
+    # rows replaced / added / re-ordered)
+    if node_hook_method is not None and node_hook_method in allfacts:
+        effects.append({'name': 'reindex_nodes', 'writer': False, 'pre': pre_of(node_hook_method),
+                        'writes': [('nodes', None)],
+                        'clears': sorted(c for c in C[node_hook_method] if c in qnames),
+                        'clears_slots': sorted(slots[s] for s in P[node_hook_method] if s in slots),
+                        'where': f'{node_where} -> FEMData.{node_hook_method}'})
+    else:
+        effects.append({'name': 'reindex_nodes', 'writer': False, 'pre': [],
+                        'writes': [('nodes', None)], 'clears': [], 'clears_slots': [],
+                        'where': node_where})
     for names, W in writers:
         key = '@' + W.name
         for nm in names:
